@@ -55,7 +55,8 @@ PROPS["C11"] = {
     "assumptions": [
         "Peekable<Chars> obeys the iterator laws and yields exactly the remaining chars (trusted axiom axiom_peekable_chars_iter_laws and the next/peek specs in prelude/chars.rs)",
         "the cfb container compares/stores root entry names as given and interprets only '/' and '\\' as separators (so an accepted, separator-free encoded name is one root entry)",
-        "Streams::next, read/write/remove_stream and remove_digital_signature (cfb I/O) are not covered",
+        "Streams::next (group streams) on a model of cfb::Entries (a fixed sequence of (is_stream, name) directory entries): the listing yields, in order, exactly the entries that are streams, are none of the four special streams (names spelled out from the format, not taken from the code's constants) and do not decode to a table, each as its decoded name; streamname::decode is imported (proved in group streamname)",
+        "read/write/remove_stream and remove_digital_signature (cfb I/O) are not covered",
     ],
 }
 
@@ -205,6 +206,7 @@ READER_FNS = ["StringRef::read", "ColumnType::read_value", "Timestamp::read_from
               "lemma_ref_join", "lemma_unoffset16", "lemma_unoffset32", "lemma_zero32", "lemma_header_bits"]
 PROPS["C02"]["verus"]["readers"] = READER_FNS
 PROPS["C09"]["verus"]["readers"] = READER_FNS
+PROPS["C11"]["verus"]["streams"] = ["Streams::next"]
 PROPS["C14"]["probes"] = {"CodePage::encode": ["encode"]}
 PROPS["C18"]["probes"] = {"timestamp_from_system_time": ["time"], "system_time_from_timestamp": ["time"],
                           "duration_to_timestamp_delta": ["time"], "timestamp_delta_to_duration": ["time"]}
@@ -216,6 +218,22 @@ PROPS["C01"]["verus"]["finish"] = ["FinishImpl::finish", "Package::flush"]
 PROPS["C01"]["verus"]["readers"] = ["StringRef::read", "ColumnType::read_value", "Timestamp::read_from", "PropertyValue::read",
                                     "StringPoolBuilder::read_from_pool", "lemma_le16_roundtrip", "lemma_parse_entry",
                                     "lemma_entries_front", "lemma_pool_pair"]
+
+PROPS["C20"] = {
+    "level": "proof",
+    "verus": {"serial": ["Table::write_rows", "StringRef::write"],
+              "rows": ["Table::read_rows"],
+              "readers": ["StringRef::read"],
+              "streamname": ["is_valid"],
+              "poolcap": ["ValueRef::create"]},
+    "probes": {"ValueRef::create": ["poolcap"], "Table::write_rows": ["rowlimit"]},
+    "slow_probes": True,
+    "assumptions": [
+        "decided, limit by limit, on the functions that enforce (or must enforce) it: ROWS -- Table::read_rows accepts exactly the streams of at most 65536 rows and Table::write_rows returns Ok only for at most 65536 rows (symmetric since fix 'row limit'); STRING REFERENCES -- StringRef::write refuses a reference above 16 bits in two-byte mode (error, not truncation) and StringRef::read accepts every two- or three-byte reference; COLUMN WIDTH -- kani:typeword_roundtrip: exactly the widths above 255 are refused by is_storable; STREAM NAMES -- streamname::is_valid == the statement's `accepted` (31 UTF-16 units after encoding)",
+        "ValueRef::create is checked under a contract WITHOUT a capacity precondition (group poolcap): the obligation 'incref's capacity precondition holds at its call site' fails -- a listed KNOWN FINDING (the library panics instead of returning an error when the 65,536th distinct string is interned with two-byte references; changing incref to return an error would change a signature the repository's own unit tests pin)",
+        "NOT covered: the 32-column check in create_table, catalog-name width limits (64/32 characters), 'leaves the package unchanged' after a refused call (C04), that Insert::exec refuses early (the fix adds that check, but Insert::exec is outside the verified set), everything cfb-level",
+    ],
+}
 
 # assumptions that hold for every check of this family
 COMMON_ASSUMPTIONS = [
